@@ -148,6 +148,9 @@ class KnownFindings:
     def __init__(self, path: str | None, prop: str):
         self.entries = []
         self.prop = prop
+        import os as _os
+        if _os.environ.get("VERIF_IGNORE_KNOWN") == "1":
+            path = None     # used to re-execute the stored replay of a known finding and see whether it still reproduces
         if path:
             try:
                 with open(path, "r") as f:
